@@ -30,9 +30,22 @@ def parse_frac(s: str) -> Fraction:
 class LeanOracle:
     """batched requests to the model driver"""
 
-    def __init__(self, dataset="icrp107"):
+    def __init__(self, dataset="icrp107", prelude=None):
         self.ds = dataset
         self._ln2 = {}
+        # driver lines that load a run-time dataset (`ds_new … ds_done <dataset>`); sent before every batch
+        self.prelude = list(prelude or [])
+
+    def _run(self, lines):
+        if not lines:
+            return []
+        if not self.prelude:
+            return lean_driver(lines)
+        out = lean_driver(self.prelude + lines)
+        head = out[:len(self.prelude)]
+        if any(o == "bad-request" for o in head):
+            raise RuntimeError("model driver refused a dataset-loading line")
+        return out[len(self.prelude):]
 
     def ln2(self, P: int):
         if P not in self._ln2:
@@ -53,7 +66,7 @@ class LeanOracle:
             v = ",".join(f"{i}:{frac_str(a)}" for i, a in sorted(n0.items())) or "-"
             lines.append("\t".join([kind, self.ds, str(P), str(nterms), str(extra), frac_str(lo2), frac_str(hi2),
                                     frac_str(t), v]))
-        outs = lean_driver(lines) if lines else []
+        outs = self._run(lines)
         res = []
         for o in outs:
             if not o.startswith("ok"):
@@ -69,7 +82,7 @@ class LeanOracle:
 
     def indices(self, idx_lists):
         lines = ["\t".join(["indices", self.ds, ",".join(f"{i}:1" for i in ix) or "-"]) for ix in idx_lists]
-        outs = lean_driver(lines) if lines else []
+        outs = self._run(lines)
         return [[int(x) for x in o[3:].split(" ") if x] for o in outs]
 
     def coeffs(self, reqs):
@@ -78,7 +91,7 @@ class LeanOracle:
         for n0, i in reqs:
             v = ",".join(f"{j}:{frac_str(a)}" for j, a in sorted(n0.items())) or "-"
             lines.append("\t".join(["coeffs", self.ds, v, str(i)]))
-        outs = lean_driver(lines) if lines else []
+        outs = self._run(lines)
         res = []
         for o in outs:
             d = {}
@@ -167,7 +180,7 @@ class DatasetView:
         return seen
 
 
-def amaku_solution(view: DatasetView, n0: dict, t: Fraction, digits=60):
+def amaku_solution(view: DatasetView, n0: dict, t: Fraction, digits=60, deadline=None):
     """independent exact Bateman solution at time t (seconds) for the closure of n0's nuclides,
     via the Amaku recurrences on the sub-chain; returns {idx: mpmath.mpf}"""
     import mpmath
@@ -179,8 +192,11 @@ def amaku_solution(view: DatasetView, n0: dict, t: Fraction, digits=60):
     # Λ/ln2: lam[i][k] = b_ki r_k for link k→i ; diag −r_i
     links = [[(pos[p], b) for p, b in view.parents[g] if p in pos] for g in idx]
     C = [[Fraction(0)] * m for _ in range(m)]
+    import time as _time
     for j in range(m):
         C[j][j] = Fraction(1)
+        if deadline is not None and _time.time() > deadline:
+            raise TimeoutError("independent solver out of time")
         for i in range(j + 1, m):
             s = Fraction(0)
             for k, b in links[i]:
